@@ -1,0 +1,80 @@
+// Copyright 2017 Pilosa Corp.
+//
+// Licensed under the Apache License, Version 2.0 (the "License");
+// you may not use this file except in compliance with the License.
+// You may obtain a copy of the License at
+//
+//     http://www.apache.org/licenses/LICENSE-2.0
+//
+// Unless required by applicable law or agreed to in writing, software
+// distributed under the License is distributed on an "AS IS" BASIS,
+// WITHOUT WARRANTIES OR CONDITIONS OF ANY KIND, either express or implied.
+// See the License for the specific language governing permissions and
+// limitations under the License.
+
+//go:build verif
+// +build verif
+
+package pilosa
+
+import (
+	"unsafe"
+
+	"github.com/pilosa/pilosa/roaring"
+)
+
+// Export shims for the verification harness (/verif, property C03). Add-only, tag-guarded.
+
+// VerifC03Frag gives the harness a fragment on a path of its choice.
+type VerifC03Frag struct{ f *fragment }
+
+// VerifC03OpenFragment opens a standard fragment for the given shard at path. Snapshots
+// requested by the write paths run through a queue with one worker, as under a holder.
+func VerifC03OpenFragment(path string, shard uint64) (*VerifC03Frag, error) {
+	f := newFragment(path, "i", "f", viewStandard, shard, 0)
+	f.CacheType = CacheTypeNone
+	f.snapshotQueue = newSnapshotQueue(1, 1, nil)
+	if err := f.Open(); err != nil {
+		return nil, err
+	}
+	return &VerifC03Frag{f: f}, nil
+}
+
+func (v *VerifC03Frag) SetBit(row, col uint64) (bool, error)   { return v.f.setBit(row, col) }
+func (v *VerifC03Frag) ClearBit(row, col uint64) (bool, error) { return v.f.clearBit(row, col) }
+func (v *VerifC03Frag) Row(row uint64) *Row                    { return v.f.row(row) }
+func (v *VerifC03Frag) SetRow(r *Row, row uint64) (bool, error) {
+	return v.f.setRow(r, row)
+}
+func (v *VerifC03Frag) ClearRow(row uint64) (bool, error) { return v.f.clearRow(row) }
+func (v *VerifC03Frag) Snapshot() error                    { return v.f.Snapshot() }
+func (v *VerifC03Frag) Close() error                       { return v.f.Close() }
+func (v *VerifC03Frag) Reopen() error                      { return v.f.Open() }
+
+// Positions returns every bit of the fragment's storage.
+func (v *VerifC03Frag) Positions() []uint64 {
+	v.f.mu.Lock()
+	defer v.f.mu.Unlock()
+	return v.f.storage.Slice()
+}
+
+// Storage returns the storage bitmap (for container inspection only).
+func (v *VerifC03Frag) Storage() *roaring.Bitmap { return v.f.storage }
+
+// Mapping returns the address range of the file mapping the storage currently uses.
+func (v *VerifC03Frag) Mapping() (start, size uintptr) {
+	if len(v.f.storageData) == 0 {
+		return 0, 0
+	}
+	return uintptr(unsafe.Pointer(&v.f.storageData[0])), uintptr(len(v.f.storageData))
+}
+
+// VerifC03RowSegments returns the bitmap and the writable flag of every segment of r.
+func VerifC03RowSegments(r *Row) (bms []*roaring.Bitmap, shards []uint64, writable []bool) {
+	for i := range r.segments {
+		bms = append(bms, r.segments[i].data)
+		shards = append(shards, r.segments[i].shard)
+		writable = append(writable, r.segments[i].writable)
+	}
+	return bms, shards, writable
+}
